@@ -108,9 +108,16 @@ pub async fn dispatch_command<W: AsyncWrite + Unpin>(
                 Ok(())
             }
         }
-        _ => {
-            error!(target: "sneldb::dispatch", ?cmd, "Unreachable command variant encountered");
-            unreachable!("dispatch_command called with non-command")
+        Batch(_) => {
+            // No front end expands BATCH into its members; answer instead of panicking.
+            error!(target: "sneldb::dispatch", "BATCH reached the dispatcher unexpanded");
+            let resp = Response::error(
+                StatusCode::BadRequest,
+                "BATCH is not supported by this endpoint",
+            );
+            writer.write_all(&renderer.render(&resp)).await?;
+            writer.flush().await?;
+            Ok(())
         }
     }
 }
